@@ -44,7 +44,7 @@ FLOORS = {'*': {
     'refused:PO': 50, 'refused:PK': 500, 'refused:KO': 100, 'refused:VA': 20, 'refused:VK': 20,
     'mode:none': 100, 'mode:name': 100, 'mode:positional': 50, 'mode:view': 100, 'mode:view-classmethod': 100,
     'mode:view-staticmethod': 100, 'annotations-for-the-type-checker-only': 300, 'parameter-names-the-library-uses-itself': 300,
-    'style:async-wrapped': 100,
+    'style:async-wrapped': 100, 'validator:pydantic': 100,
     'style:def': 300, 'style:async': 300, 'style:async-plain': 300, 'client-names-context': 100,
     'context-identity-checked': 500, 'dual-registration-calls': 500,
 }}
@@ -159,7 +159,16 @@ def _render(params, with_ctx, is_async, as_method, fname, first='self'):
     return head + '\n' + body
 
 
-def build_program(sig, ctx_at, mode, style, annot=False, names=0):
+def _none_defaults(src):
+    """the pydantic variant: every defaulted parameter is annotated Union[int, str] and defaults to None - a default that is not
+    an instance of the annotation, as in the customary `limit: int = None`; a direct call binds it all the same"""
+    import re
+    head, body = src.split('\n', 1)
+    head = re.sub(r"(\w+)='d_\1'", r"\1: typing.Union[int, str] = None", head)
+    return head + '\n' + body
+
+
+def build_program(sig, ctx_at, mode, style, annot=False, names=0, validator=None):
     """returns (namespace with f / g / LOG / View, source)"""
     params = name_params(sig, ctx_at if mode in ('name', 'positional') else -1, names)
     is_async = style in ('async', 'async-wrapped')
@@ -182,7 +191,11 @@ def build_program(sig, ctx_at, mode, style, annot=False, names=0):
             src_f += ('\n\n_f_inner = f\n\ndef f(*a, **k):\n    return _f_inner(*a, **k)\n\n'
                       'f = functools.wraps(_f_inner)(f)')
     import functools
-    ns = {'LOG': [], 'VIEWS': [], 'ViewMixin': pjrpc.server.ViewMixin, '__name__': MODULE_NAME, 'functools': functools}
+    import typing
+    ns = {'LOG': [], 'VIEWS': [], 'ViewMixin': pjrpc.server.ViewMixin, '__name__': MODULE_NAME, 'functools': functools, 'typing': typing}
+    if validator == 'pydantic':
+        src_g = '\n\n'.join(_none_defaults(part) for part in src_g.split('\n\n'))
+        src_f = _none_defaults(src_f)
     src = src_g + '\n\n' + src_f + '\n'
     exec(compile(src, f'<{MODULE_NAME}>', 'exec', dont_inherit=True), ns)
     return ns, src, params
@@ -203,13 +216,17 @@ def param_cases(params):
             yield {n: f'v_{n}' for n in sub}
 
 
-def run_program(ctx, sig, ctx_at, mode, style, annot=False, names=0):
+def run_program(ctx, sig, ctx_at, mode, style, annot=False, names=0, validator=None):
     if annot:
         ctx.hit('annotations-for-the-type-checker-only')
     if names:
         ctx.hit('parameter-names-the-library-uses-itself')
     try:
-        ns, src, params = build_program(sig, ctx_at, mode, style, annot, names)
+        ns, src, params = build_program(sig, ctx_at, mode, style, annot, names, validator)
+        if validator == 'pydantic':
+            from pjrpc.server.validators import pydantic as vpd
+            ctx.hit('validator:pydantic')
+            vpd.PydanticValidator().validate(ns['f'])
     except SyntaxError as e:
         raise RuntimeError(f'generator produced invalid Python: {e}\n{sig} {ctx_at} {mode} {style}')
     is_async = style in ('async', 'async-plain', 'async-wrapped')
@@ -239,6 +256,8 @@ def run_program(ctx, sig, ctx_at, mode, style, annot=False, names=0):
     env = dict(ns=ns, src=src, params=params, mode=mode, style=style, is_async=is_async, disp=disp,
                kinds_present=kinds_present, ctx_kind=ctx_kind)
     for case in param_cases(params):
+        if validator == 'pydantic' and any(not isinstance(v, (int, str)) for v in (case.values() if isinstance(case, dict) else case)):
+            continue          # under a validating annotation only conforming values say anything about binding
         judge_call(ctx, env, 'f', ns['g'], case, designated=mode in ('name', 'positional'))
         if mode == 'name':
             ctx.hit('dual-registration-calls')
@@ -399,6 +418,11 @@ def gen(ctx):
                 if names == 2 and mode.startswith('view'):
                     names = 1
                 yield 'program', {'sig': sig, 'ctx_at': at, 'mode': mode, 'style': style, 'annot': k % 5 == 0, 'names': names}
+                if (k % 2 == 0 and not mode.startswith('view') and style != 'async-wrapped' and all(p[0] in ('PK', 'KO') for p in sig)
+                        and any(p[1] for p in sig)):
+                    # the same program under the pydantic validator (kinds the known findings D4 / D18 do not involve)
+                    yield 'program', {'sig': sig, 'ctx_at': at, 'mode': mode, 'style': style, 'annot': False, 'names': names,
+                                      'validator': 'pydantic'}
 
 
 KINDS = {'program': run_program}
